@@ -680,10 +680,10 @@ def run(chk: Check):
                     'fone fdiv fmul), NumPy fancy indexing rec[..., idx] and F-order reshape, the PAR text parser '
                     '(parse_PAR_header, used to derive the model inputs)']
     chk.extra['unproved_statements'] = [
-        'C20_strict_complete_volumes takes the shape of the stage-1 order (complete volumes, then at most one incomplete '
-        'one) as its hypothesis; that a key-sorted list of records with pairwise distinct keys whose label groups are '
-        'complete decomposes into such blocks is not derived in Coq (it is what sorting with the slice number as least '
-        'significant key gives) - exercised by the direct predicate truncated_complete_only on every case']
+        'C20_labelled_blocks / C20_strict_labelled_volumes / C20_strict_load_by_label derive the block shape of the key '
+        'order from a condition on the record list (keyed) when EVERY label group is complete; for a recording whose '
+        'last group in key order is incomplete the shape is still a hypothesis of C20_strict_complete_volumes '
+        '(stage1 recs = concat Gs ++ T) - exercised by the direct predicate truncated_complete_only on every case']
     chk.build()
     chk.run_probes()
     if not chk.model_ok:
